@@ -104,7 +104,7 @@ def tag_loop(ctx, rule):
                     for t in ast.walk(n):
                         if isinstance(t, ast.Call):
                             h = repo.resolve_call(pf, t)
-                            if h is not None and h.module is not pf.module and any(isinstance(x, ast.Name) and x.id == "types_regex" for x in ast.walk(h.node)) and norm(n.target) in {norm(a) for a in t.args}:
+                            if h is not None and h.module is not pf.module and any(isinstance(x, ast.Subscript) and isinstance(x.value, ast.Name) and isinstance(h.module.consts.get(x.value.id), ast.Dict) for x in ast.walk(h.node)) and norm(n.target) in {norm(a) for a in t.args}:
                                 ctx.violated("R16.1", pf.where(t), f"optional fields are kept only if `{h.qualname}` accepts them: that is the strict per-type value grammar (types_regex), so a printable value such as `de:f:nan` or a lower-case hex array is dropped instead of being carried through", key_of(pf, f"strict-validator:{h.qualname}"))
         raise AnalysisError(rule, pf.where(), f"expected one loop over the optional fields using a regular expression, found {len(cands)}")
     f, loop = cands[0]
